@@ -23,7 +23,7 @@ ExactOk(ws, q, a) ==
   /\ a.meta = a.contains
   /\ (a.exact => a.contains)
   /\ (a.contains => (a.canon \in ListedWords(ws) /\ Id(a.canon) = Id(q)))
-  /\ (a.exact = (a.contains /\ a.canon = Norm(q)))
+  /\ (a.exact = (a.contains /\ Norm(a.canon) = Norm(q)))      \* both sides normalised (6e44128)
   /\ a.str_agree
 
 \* a merged dictionary behaves as the union of its parts (first part wins for the spelling)
